@@ -29,8 +29,10 @@ instance (s : State) (b k : Bytes) (u : UploadRef) : Decidable (ListPartsOk s b 
   unfold ListPartsOk; decide_pred
 instance (s : State) (b k : Bytes) (u : UploadRef) : Decidable (AbortOk s b k u) := by
   unfold AbortOk; decide_pred
-instance (s : State) (b k : Bytes) (id : Nat) (pl : List (Option Int)) : Decidable (CompleteSuccessOk s b k id pl) := by
+instance (s : State) (b k : Bytes) (id : Nat) : Decidable (CompleteSuccessOk s b k id) := by
   unfold CompleteSuccessOk; decide_pred
+instance (s : State) (b k : Bytes) (id : Nat) (pl : List (Option Int)) : Decidable (CompleteOwnerOk s b k id pl) := by
+  unfold CompleteOwnerOk; decide_pred
 instance (s : State) (who : Who) (b k : Bytes) (u : UploadRef) (parts : Option (List (Option Int))) :
     Decidable (CompleteOk s who b k u parts) := by
   unfold CompleteOk; decide_pred
